@@ -24,12 +24,13 @@
   `joinDot` is `'.'.join`.  The component-level core (`replaceC`) works on
   `List Str`.
 
-  `\w`: the model's `isW` is Python's `\w` restricted to ASCII
-  (`[A-Za-z0-9_]`).  For `str` patterns Python's `\w` also accepts every
-  non-ASCII alphanumeric code point, but *not* the combining marks and
-  connector punctuation that may continue an identifier (2450 code points,
-  e.g. U+0902, U+00B7); the correspondence check therefore only sends ASCII
-  text, and the identifier/`\w` mismatch is recorded as known finding C18-D5.
+  `\w`: the model's `isW` is Python's `\w` (for `str` patterns: alphanumeric code
+  points and `_`) on a modelled alphabet — ASCII, U+0080..U+017F, Greek,
+  CJK Unified Ideographs — and is compared with `re` code point by code point
+  by the correspondence check; text outside that alphabet is not sent.  The
+  combining marks and connector punctuation that may continue an identifier
+  but are not `\w` (2450 code points, e.g. U+0902, U+00B7) are known finding
+  C18-D5.
 
   `re.sub` expands backslash escapes in the replacement; replacements here are
   dotted identifiers (no backslash), for which the template is literal.
@@ -129,8 +130,24 @@ def transformImport (m : RMap) (imp : Imp) : Imp :=
 
 /-! ### `re.sub(r"\bK\b", V, text)` -/
 
-/-- Python `\w`, ASCII range. -/
-def isW (c : Char) : Bool := c.isAlphanum || c = '_'
+/-- Python `\w` for `str` patterns (`ch.isalnum() or ch == '_'`, Unicode 15.0), exact on the *modelled
+    alphabet*: ASCII, Latin-1 Supplement + Latin Extended-A (U+0080..U+017F), Greek and Coptic
+    (U+0370..U+03FF) and CJK Unified Ideographs (U+4E00..U+9FFF).  The correspondence check compares this
+    predicate with `re` on every code point of these blocks and sends no text outside them. -/
+def isW (c : Char) : Bool :=
+  let n := c.toNat
+  c.isAlphanum || c = '_'
+  || n = 0xAA || (0xB2 ≤ n && n ≤ 0xB3) || n = 0xB5 || (0xB9 ≤ n && n ≤ 0xBA) || (0xBC ≤ n && n ≤ 0xBE)
+  || (0xC0 ≤ n && n ≤ 0xD6) || (0xD8 ≤ n && n ≤ 0xF6) || (0xF8 ≤ n && n ≤ 0x17F)
+  || (0x370 ≤ n && n ≤ 0x374) || (0x376 ≤ n && n ≤ 0x377) || (0x37A ≤ n && n ≤ 0x37D) || n = 0x37F
+  || n = 0x386 || (0x388 ≤ n && n ≤ 0x38A) || n = 0x38C || (0x38E ≤ n && n ≤ 0x3A1)
+  || (0x3A3 ≤ n && n ≤ 0x3F5) || (0x3F7 ≤ n && n ≤ 0x3FF)
+  || (0x4E00 ≤ n && n ≤ 0x9FFF)
+
+/-- is the code point inside the modelled alphabet? -/
+def inAlphabet (c : Char) : Bool :=
+  let n := c.toNat
+  n < 0x180 || (0x370 ≤ n && n ≤ 0x3FF) || (0x4E00 ≤ n && n ≤ 0x9FFF)
 
 def wOpt : Option Char → Bool
   | none => false
